@@ -336,6 +336,12 @@ func (mgr *GCMgr) gc(bkt *Bucket, startChunkID, endChunkID int, merge bool) {
 				fileState.NumNotInHtree++
 				if gc.Begin > 0 && rec.Payload.Ver < 0 {
 					isNewest = true
+				} else if hintit, hintchunkid, covered := bkt.hints.getCollisionGC(ki); covered && hintit != nil &&
+					(Position{hintchunkid, hintit.Pos.Offset}) == oldPos {
+					// a key of a known collision group is served from the collision table even when the
+					// group has no tree slot: the record the table points at is its current one
+					isNewest = true
+					meta.ValueHash = hintit.Vhash
 				}
 			}
 
